@@ -120,8 +120,8 @@ type Converter struct {
 	BuilderName string
 	Input       ConverterInput
 
-	// FIXME: assuming we only have direct mappings here is... *optimistic*.
-	ConstructorArgs []DirectArgMapping
+	// mapped by kind (direct, builder, array, …), like the arguments of options
+	ConstructorArgs []ArgumentMapping
 
 	Mappings []ConversionMapping
 }
@@ -165,7 +165,7 @@ func (generator *ConverterGenerator) FromBuilder(context Context, builder ast.Bu
 		},
 	}
 
-	converter.ConstructorArgs = generator.constructorArgs(converter, builder)
+	converter.ConstructorArgs = generator.constructorArgs(context, converter, builder)
 
 	converter.Mappings = tools.Map(builder.Options, func(option ast.Option) ConversionMapping {
 		return generator.convertOption(context, converter, option)
@@ -189,19 +189,21 @@ func (generator *ConverterGenerator) FromBuilder(context Context, builder ast.Bu
 	return converter
 }
 
-func (generator *ConverterGenerator) constructorArgs(converter Converter, builder ast.Builder) []DirectArgMapping {
+func (generator *ConverterGenerator) constructorArgs(context Context, converter Converter, builder ast.Builder) []ArgumentMapping {
 	// we're only interested in assignments made from a constructor argument
 	// (as opposed to constant initializations for example)
 	argAssignments := tools.Filter(builder.Constructor.Assignments, func(assignment ast.Assignment) bool {
 		return assignment.Value.Argument != nil
 	})
 
-	return tools.Map(argAssignments, func(assignment ast.Assignment) DirectArgMapping {
-		return DirectArgMapping{
-			ValuePath: converter.inputRootPath().Append(assignment.Path),
-			ValueType: assignment.Path.Last().Type,
-		}
-	})
+	args := make([]ArgumentMapping, 0, len(argAssignments))
+	for i, assignment := range argAssignments {
+		valuePath := converter.inputRootPath().Append(assignment.Path)
+
+		args = append(args, generator.argumentForType(context, converter, fmt.Sprintf("constructorValue%d", i), valuePath, assignment.Path.Last().Type))
+	}
+
+	return args
 }
 
 func (generator *ConverterGenerator) convertListOfDisjunctionOptions(context Context, converter Converter, options []ast.Option) ConversionMapping {
